@@ -26,7 +26,7 @@ COMPONENTS = {
 W = [('q_eq', 5), ('q_cmp', 4), ('q_in', 3), ('q_slice', 4), ('q_index', 3), ('q_getattr', 3), ('q_lambda', 3), ('q_str', 3),
      ('q_chain', 3), ('q_aggr', 3), ('q_limit', 3), ('q_get', 2), ('q_kw', 2), ('q_items', 2), ('q_join', 2), ('q_m2m', 2),
      ('q_prefetch', 2), ('q_rawfrag', 2), ('q_hybrid', 5), ('raw', 4), ('by_sql', 2), ('adapt', 4),
-     ('m_set', 3), ('m_new', 2), ('m_del', 1), ('m_tag', 2), ('m_rawwrite', 2), ('flush', 1), ('commit', 1), ('rollback', 1)]
+     ('m_set', 3), ('m_new', 2), ('m_del', 1), ('m_tag', 2), ('m_rawwrite', 2), ('m_bulkdel', 2), ('q_oneoff', 4), ('flush', 1), ('commit', 1), ('rollback', 1)]
 
 
 def gen_case(seed, i, tier):
